@@ -4,7 +4,7 @@ id=$1; shift; checks=${@:-$id}
 for i in 1 2 3; do
   src=/tmp/mut/$id/out; [ -f $src/patch$i.diff ] || continue
   d=/verif/seeded/$id-$i; mkdir -p $d
-  cp $src/patch$i.diff $d/patch.diff; cp $src/notes$i.md $d/notes.md 2>/dev/null; cp $src/demo$i* $d/ 2>/dev/null; [ -d $src/demo$i ] && cp -r $src/demo$i $d/
+  if [ -f $d/patch.rebased.diff ]; then cp $d/patch.rebased.diff $d/patch.diff; else cp $src/patch$i.diff $d/patch.diff; fi; cp $src/notes$i.md $d/notes.md 2>/dev/null; cp $src/demo$i* $d/ 2>/dev/null; [ -d $src/demo$i ] && cp -r $src/demo$i $d/
   /verif/bin/seedtest $d/patch.diff $checks > $d/result.txt 2>&1
   echo "$id-$i: $(grep -c '^VIOLATION' $d/result.txt) violations; $(grep 'exit=' $d/result.txt | tr '\n' ' ')"
 done
